@@ -11,6 +11,7 @@ from typing import Dict, List
 
 from .index import FuncInfo, Index, PropInfo
 from .interp import Interp
+from .model import ATTR
 from .values import ANY, TOP, dim_collapse, dim_known, dim_str
 
 BAND_MARGIN = Fraction(1, 1000)       # boundary margin of the property quantifiers
@@ -181,6 +182,16 @@ def scan(index: Index) -> Scan:
                     if e.type == "dimconflict":
                         k = f"{e.func.qualname}:{_norm(e.node)}"
                         sc.conflicts.setdefault(k, (e.where(), f"inhomogeneous {e.what}: {dim_str(e.a.dim)} vs {dim_str(e.b.dim)} in `{_norm(e.node)[:80]}`", e.func.qualname))
+                    elif e.type == "write" and e.mode == "rebind" and e.rhs is not None and e.loc[1] in ATTR \
+                            and e.op == "set":
+                        want = ATTR[e.loc[1]][0]
+                        from .values import dim_unify
+                        got = e.rhs.dim
+                        _, bad = dim_unify(want, got)
+                        if bad and dim_collapse(got) != ANY:
+                            k = f"{e.func.qualname}:store:{e.loc[1]}"
+                            sc.conflicts.setdefault(k, (e.where(), f"stores a quantity of dimension {dim_str(got)} into {e.loc[1]} "
+                                                        f"(declared {dim_str(want)}) in `{_norm(e.node)[:70]}`", e.func.qualname))
                     elif e.type == "nondimless":
                         k = f"{e.func.qualname}:{_norm(e.node)}"
                         sc.conflicts.setdefault(k, (e.where(), f"{e.fn}() of a quantity of dimension {dim_str(e.arg.dim)} in `{_norm(e.node)[:80]}`", e.func.qualname))
